@@ -125,7 +125,8 @@ def main(argv=None):
             discards[why] += 1
             continue
         frng = st["fault"]
-        plan = [dict(sched)]
+        plan = [(case, dict(sched))]
+        base_case = case
         r = frng.random()
         want_fault = r < P.fault_rate
         want_probe = (not want_fault) and r < P.fault_rate + 0.04
@@ -134,7 +135,7 @@ def main(argv=None):
                 reach[rk] += 1
         run_no = 0
         while plan:
-            s = plan.pop(0)
+            case, s = plan.pop(0)
             probe = bool(s.get("reexec_rate"))
             o = run_case(case, s, P.compare, want=want, m1=(i % 7 == 0))
             run_no += 1
@@ -192,9 +193,14 @@ def main(argv=None):
             if run_no == 1 and want_fault and sim.step > 0:
                 k = frng.randrange(sim.step)
                 kind = frng.choice(["abort_before", "abort_after"])
-                plan.append(dict(sched, faults=[{"kind": kind, "step": k}]))
+                plan.append((case, dict(sched, faults=[{"kind": kind, "step": k}])))
             elif run_no == 1 and want_probe:
-                plan.append(dict(sched, reexec_rate=0.3))
+                plan.append((case, dict(sched, reexec_rate=0.3)))
+            if run_no == 1 and P.variants is not None:
+                for vn, vc in enumerate(P.variants(base_case, st)):
+                    pol, arg = draw_policy(st["policy-variant%d" % vn])
+                    plan.append((vc, {"seed": util.derive_seed(a.seed, a.prop, i, "variant", vn),
+                                      "policy": pol, "policy_arg": arg}))
     emit({"t": "summary", "worker": a.worker, "counts": dict(C), "by_op": dict(by_op),
           "by_policy": dict(by_policy), "fired": dict(fired), "discards": dict(discards),
           "reach": dict(reach), "notes": dict(notes), "distinct_nontrivial": len(distinct),
